@@ -443,7 +443,7 @@ class Facts:
         }
 
 
-_byte_re = re.compile(r'^const b"(.*)"$', re.S)
+_byte_re = re.compile(r'^(?:const )?b"(.*)"$', re.S)
 
 
 def const_bytes(c):
@@ -460,7 +460,7 @@ def const_bytes(c):
             return bytes(s, "utf-8").decode("unicode_escape").encode("latin-1")
         except Exception:
             return s.encode()
-    m = re.match(r'^const "(.*)"$', v, re.S)
+    m = re.match(r'^(?:const )?"(.*)"$', v, re.S)
     if m:
         try:
             return bytes(m.group(1), "utf-8").decode("unicode_escape").encode("latin-1")
